@@ -2,7 +2,12 @@ SPEC = {
     'module': 'EV.Props.C08',
     'theorems': ['EV.Mempool.C08_exact', 'EV.Mempool.C08_observables', 'EV.Mempool.C08_observables_inv',
                  'EV.Mempool.C08_touched', 'EV.Mempool.C08_touched_handed_over',
-                 'EV.Mempool.Conflict.C08_counterexample_conflict'],
+                 'EV.Mempool.Conflict.C08_counterexample_conflict',
+                 # the index side of EnvQuiet, proved of the index model (EV/Props/C08lookup.lean)
+                 'EV.Index.lookupUtxo_flushed', 'EV.Index.lookupUtxo_flushed_iff', 'EV.Index.lookupUtxos_flushed',
+                 'EV.Index.envQuiet_lookup_of_index', 'EV.Index.envQuiet_of_index', 'EV.Index.C08lookup_exact',
+                 'EV.Index.lookupUtxos_end_to_end', 'EV.Index.lookupUtxos_after_reorgs',
+                 'EV.Index.lookupUtxos_told'],
     'suites': ['mempool', 'index'],
     # of the shared index suite, C08 relies on DB.lookup_utxos only (the resolution of prevouts, incl.
     # outputs sharing the 4-byte compressed tx hash and index): EnvQuiet's "lookup_utxos is exact"
@@ -10,8 +15,18 @@ SPEC = {
     'assumptions': [
         'EnvQuiet: during the refresh the daemon mempool M and its height are stable and the index is at that '
         'height: every listed transaction is delivered and is the transaction with that id (txid injectivity: the '
-        'world is a function from ids to transactions); lookup_utxos answers from the confirmed UTXO map U, which '
-        'records true outputs; transactions only name output indices that exist (Valid)',
+        'world is a function from ids to transactions); transactions only name output indices that exist (Valid)',
+        'EnvQuiet, index clauses (lookup_utxos answers from the confirmed UTXO map U, which records true outputs): '
+        'no longer assumed of the index but PROVED of the index model (EV/Props/C08lookup.lean): on every fully '
+        'flushed state of the whole-run invariant - after any valid run of advances, flushes, back-outs and restarts '
+        'followed by a full flush (lookupUtxos_end_to_end, lookupUtxos_after_reorgs) and at every point clients are '
+        'told a height (lookupUtxos_told) - lookup_utxos is the specification lookup in the UTXO set of the chain, one '
+        'answer per prevout in order, outputs sharing the 4-byte compressed tx hash and index included '
+        '(lookupUtxo_flushed); envQuiet_of_index / C08lookup_exact instantiate EnvQuiet with it (U = the '
+        'specification UTXO set) given DaemonQuiet (the daemon-side clauses) and WorldHas (the mempool world W '
+        'contains the transactions of the chain with their outputs); what remains assumed: the index model '
+        'corresponds to DB.lookup_utxos (suite index, Q_LOOKUP / S_LOOKUP lines) and the whole refresh reads the '
+        'index in one such state (index at the daemon height, nothing flushed during the refresh)',
         'EnvQuiet: M is closed (every non-generation input is funded by M or U), acyclic and conflict-free (no '
         'output spent by two listed transactions) - a valid bitcoind mempool; without conflict-freedom a listed '
         'transaction can be dropped (C08_counterexample_conflict, replayed on the real class)',
@@ -37,7 +52,8 @@ SPEC = {
     'level_note': 'trusted: Lean kernel + the three standard axioms; the hand-written model corresponds to the class '
                   'only as far as the mempool suite exercises it; environment predicate EnvQuiet (valid, closed, '
                   'acyclic, conflict-free daemon mempool; index answering from the confirmed UTXO set - the latter '
-                  'validated on the real DB.lookup_utxos over LevelDB on every run)',
+                  'proved of the index model over whole runs (C08lookup), the model validated on the real '
+                  'DB.lookup_utxos over LevelDB on every run)',
     'technique': 'Lean 4 invariant + rank induction over a literal model of _process_mempool; differential '
                  'correspondence under a controlled asyncio scheduler',
 }
